@@ -57,7 +57,8 @@ static void gen_scenario(uint64_t rseed, uint64_t idx, const char *tier, sbuf_t 
   int cls = (int)((idx / (uint64_t)total) % 3);
   if (!strcmp(tier, "quick")) cls = (int)((idx / (uint64_t)total) % 2);
   int dims[] = { 24, 150, 420 };
-  genopt_t g = { dims[cls] };
+  genopt_t g = { dims[cls], 0 };
+  if (rng_chance(&rg, 1, 4)) g.winprob = 6; /* operands that are views: the library copies them into temporaries on several paths */
   const lib_t *L = m4sim_libs[rng_below(&rg, (uint64_t)m4sim_nlibs)];
   sb_printf(o, "# m4sim engine=oom scenario=%s lib=%s sizeclass=%d\n", op, L->name, cls);
   sb_printf(o, "lib %s\n", L->name);
